@@ -539,6 +539,11 @@ class Interp:
 
     def e_Subscript(self, st, n):
         base = self.eval(st, n.value)
+        if isinstance(base, SeqAny) and isinstance(n.slice, ast.Slice):
+            # a for-each over a SeqAny stands for EVERY element: only the full slice seq[:] is the whole sequence
+            full = n.slice.lower is None and n.slice.upper is None and n.slice.step is None
+            self.oblige(st, "def.whole_sequence@%s" % self._where(st, n), z3.BoolVal(full))
+            return base
         idx = self.eval(st, n.slice)
         if isinstance(base, DictV):
             return self.lookup(st, base, idx, n)
